@@ -78,6 +78,8 @@ func C07(p *core.Program, r *core.Report) {
 	// ---- N4: a data table is cloned with all its visible descendants: what counts as visible is
 	// the documented decision list (shared with C04-V3)
 	checkVisibilityRules(p, r, "N4")
+	// N7: a placeholder goes into the document behind the text that precedes it (shared with C02-O5)
+	checkFlushBeforeElement(p, r, "N7")
 	// ---- N6: a retained data table is cloned through GetOutputNodes: its per-node gate admits
 	// every element that is not script/style/hidden - in particular empty cells and rows
 	// (decision-list conformance, shared with C04-V1/C05-S3)
